@@ -83,6 +83,21 @@ int main (void) {
         if (s >= (long) (PROBE_STIR_MAX_SECS)) break;
     }
     printf ("].\n");
+    /* 60 SUCCESSIVE stirs from each initial condition (no seed file / a complete one): (the interval variable after the
+       call, the delay armed; -1 = the callback returned without arming) — far beyond the point where the maximum is
+       reached, so that whatever state is kept behind the interval shows */
+    for (i = 0; i < 2; i++) {
+        int n;
+        seed_file (i == 0 ? -1 : (int) (PROBE_SEED_BYTES));
+        probe_word = 0; armed_ms = -1; n_sets = 0; _random_timer_id = 0;
+        random_init (path);
+        printf ("Definition %s : list (Z * Z) := [", i == 0 ? "stir_seq_first_start" : "stir_seq_seeded");
+        for (n = 0; n < 60; n++) {
+            if (n > 0) { armed_ms = -1; n_sets = 0; _random_stir_entropy (NULL); }
+            printf ("%s(%d, %ld)", n ? "; " : "", _random_stir_secs, n_sets == 1 ? armed_ms : -1L);
+        }
+        printf ("].\n");
+    }
     probe_word = 0xFFFFFFFFu; armed_ms = -1; _random_stir_secs = (int) (PROBE_STIR_MAX_SECS); _random_stir_entropy (NULL);
     printf ("Definition stir_jitter_max : Z := %ld.\n", armed_ms - 1000L * (long) (PROBE_STIR_MAX_SECS));
     unlink (path); rmdir (dir);
